@@ -335,7 +335,6 @@ func (c *cTx) Fox() *Router {
 // Any attempt to write on the [ResponseWriter] will panic with the error [ErrDiscardedResponseWriter].
 func (c *cTx) Clone() Context {
 	cp := cTx{
-		rec:   c.rec,
 		req:   c.req.Clone(c.req.Context()),
 		fox:   c.fox,
 		route: c.route,
@@ -343,7 +342,14 @@ func (c *cTx) Clone() Context {
 		tsr:   c.tsr,
 	}
 
-	cp.rec.ResponseWriter = noopWriter{c.rec.Header().Clone()}
+	// Snapshot the state of the current writer. It is not necessarily the embedded recorder: Lookup, CloneWith
+	// and SetWriter install another writer while the recorder still holds the state of an earlier request.
+	cp.rec.ResponseWriter = noopWriter{c.w.Header().Clone()}
+	cp.rec.status = c.w.Status()
+	cp.rec.size = notWritten
+	if c.w.Written() {
+		cp.rec.size = c.w.Size()
+	}
 	cp.w = noUnwrap{&cp.rec}
 	if !c.tsr {
 		params := make(Params, len(*c.params))
